@@ -587,6 +587,16 @@ func runElements(c *mc.Ctx, r *mc.Result) {
 		}
 	}
 	rec("")
+	// IPv4 entries followed by two zone separators: not an address for net/netip nor for the
+	// net.ParseIP-based parser (zones are kept out of the alphabets otherwise: for one '%' after an IPv4
+	// address, and for several after an IPv6 address, the two parsers disagree and the statement does
+	// not decide)
+	for _, v := range []string{"7.7.7.7%a%b", "10.0.0.1%a%b", "7.7.7.7%%", "[7.7.7.7%a%b]:80"} {
+		idx++
+		if c.Mine(idx) {
+			visit(v)
+		}
+	}
 	// bracket / port / quote compositions around real addresses (too long for the brute-force part)
 	for _, pre := range []string{"", "[", "[[", "\"", "\"[", "[\""} {
 		for _, core := range []string{"7.7.7.7", "2606:4700::1", "10.0.0.1", "fe80::1"} {
